@@ -1,10 +1,11 @@
 #!/bin/sh
 # usage: tools/seedtest.sh <patch.diff> <ID>...   — applies the patch to /repo, runs the checks, reverts.
 patch="$1"; shift
-git -C /repo apply "$patch" || { echo "patch does not apply"; exit 2; }
+R="${VERIF_REPO:-/repo}"
+git -C "$R" apply "$patch" || { echo "patch does not apply"; exit 2; }
 for id in "$@"; do
   echo "--- $id on $(basename $(dirname $patch))"
   /verif/check $id 2>&1 | grep -v conda | grep -v "^  harness" | cut -c1-260
 done
-git -C /repo checkout -- .
-git -C /repo status --short | head -3
+git -C "$R" checkout -- .
+git -C "$R" status --short | head -3
